@@ -338,9 +338,15 @@ class DPMultiheadAttention(nn.Module):
             attn_output_weights = attn_output_weights.view(
                 bsz, self.num_heads, tgt_len, src_len
             )
-            attn_output_weights = attn_output_weights.masked_fill(
-                key_padding_mask.unsqueeze(1).unsqueeze(2), float("-inf")
-            )
+            if key_padding_mask.is_floating_point():
+                # an additive mask, as accepted by nn.MultiheadAttention
+                attn_output_weights = attn_output_weights + key_padding_mask.unsqueeze(
+                    1
+                ).unsqueeze(2)
+            else:
+                attn_output_weights = attn_output_weights.masked_fill(
+                    key_padding_mask.unsqueeze(1).unsqueeze(2), float("-inf")
+                )
             attn_output_weights = attn_output_weights.view(
                 bsz * self.num_heads, tgt_len, src_len
             )
